@@ -1,8 +1,79 @@
 import GcArena.Model.MacroImpls
+import GcArena.Proofs.CollectLemmas
 /-! General statements about the template rule (used by `Props/C12s` and `Props/C16`). -/
 namespace GcArena.MacroImpls
+open GcArena.CollectTy
 
-/-- What `Template.ok` buys: for **every** instantiation whose user-supplied type mentions a brand,
+/-! ## An instantiated template is a `Collect` impl like any other
+
+`Template.toEntry` renders the impl a client gets from a template as a row of the `Collect`-impl
+table (`Model/CollectTy.Entry`), so that the table theorems (`C16.exact`, `C16.no_hidden_brand`)
+speak about it.  The user-supplied type is opaque: every declared parameter may be stored in it
+(`fieldParams` = all positions), and if it mentions the impl's brand outside its parameters it holds
+branded data of its own (one pointer field, `'gc`) — unless the template demands `$type: 'static`,
+under which the brand can only be `'static`.  A forwarding `trace` (`dyn_trace`) visits everything
+the value holds; an empty one nothing. -/
+def Template.toEntry (t : Template) (i : Inst) : Entry :=
+  let n := if t.hasParams then i.nparams else 0
+  let fwd := t.trace == .forwardsDyn
+  { shape := .internal
+    text := t.macroName ++ "! arm " ++ toString t.arm
+    nparams := n
+    constNeeds := t.needsTraceValue == some true
+    disjuncts := []
+    traced := if fwd then List.range n else []
+    direct := if fwd then List.range n else []
+    guards := []
+    staticParams := if t.paramsStatic then List.range n else []
+    selfStatic := t.typeStatic
+    ptrFields := if !i.brandFree && t.gcInScope && !t.typeStatic then ["'gc"] else []
+    tracedFields := if fwd then ["'gc"] else []
+    params := (List.range n).map (fun k =>
+      ⟨"P", k, if fwd then .traced else if t.typeStatic || t.paramsStatic then .static else .unbounded⟩)
+    fieldParams := List.range n
+    freeLifetimes := []
+    gate := "" }
+
+/-- **What the template rule buys, in the terms of the impl table**: every instantiation of a
+template satisfying `Template.ok` — any number of declared parameters, the user-supplied type
+mentioning the brand or not — is a complete entry (every stored position traced under a true
+`NEEDS_TRACE` or `'static`; branded data of the type itself traced and not short-circuited) and
+satisfies the untraced-static rule. -/
+theorem Template.toEntry_ok (t : Template) (h : t.ok = true) (i : Inst) :
+    (t.toEntry i).complete = true ∧ (t.toEntry i).untracedStatic = true := by
+  rcases t with ⟨mn, arm, hp, gs, ts, ps, ub, nt, tr, ui⟩
+  cases nt <;> cases tr <;>
+    simp only [Template.ok, Template.reportsNothing, Template.needsTraceValue] at h <;>
+    simp_all [Template.toEntry, Template.needsTraceValue, Entry.complete, Entry.untracedStatic, Entry.held,
+      Entry.isStaticAt, Shape.stored]
+
+
+/-- The impl table extended by client instantiations of templates. -/
+def withInstances (tb : Table) (is : List (Template × Inst)) : Table :=
+  tb.extend (is.map (fun p => p.1.toEntry p.2))
+
+theorem withInstances_complete (tb : Table) (htb : tb.complete = true) (ts : List Template)
+    (hts : ts.all Template.ok = true) (is : List (Template × Inst)) (hmem : ∀ p, p ∈ is → p.1 ∈ ts) :
+    (withInstances tb is).complete = true := by
+  apply Table.extend_complete _ _ htb
+  intro e he
+  obtain ⟨p, hp, rfl⟩ := List.mem_map.mp he
+  exact (Template.toEntry_ok p.1 (List.all_eq_true.mp hts _ (hmem p hp)) p.2).1
+
+theorem withInstances_untracedStatic (tb : Table) (htb : tb.untracedStatic = true) (ts : List Template)
+    (hts : ts.all Template.ok = true) (is : List (Template × Inst)) (hmem : ∀ p, p ∈ is → p.1 ∈ ts) :
+    (withInstances tb is).untracedStatic = true := by
+  apply Table.extend_untracedStatic _ _ htb
+  intro e he
+  obtain ⟨p, hp, rfl⟩ := List.mem_map.mp he
+  exact (Template.toEntry_ok p.1 (List.all_eq_true.mp hts _ (hmem p hp)) p.2).2
+
+/-- *Definitional reading of the rule* (the conclusion re-reads conjuncts of `Template.ok`; the
+"root bound rejects it" half is prose).  The semantic statements are `Template.toEntry_ok` and the
+`template_instances_*` theorems of `Props/C16` / `Props/C12s`; assurance that `Template.applies`
+reflects rustc comes from the template probes (`c12-template-*`, `c16-template-*`).
+
+What `Template.ok` buys: for **every** instantiation whose user-supplied type mentions a brand,
 the generated impl is either not brand-generic — it holds only when the brand is `'static`, so the
 `for<'a> Root<'a, R>: Collect<'a>` bound of the collecting `Arena` methods (and a generative
 callback's `Gc::new`) rejects it — or it really traces: its `trace` forwards to the value and its
@@ -35,7 +106,7 @@ theorem ok_sound (t : Template) (h : t.ok = true) (i : Inst) (hb : i.brandFree =
 mentions the brand, an impl for every brand that reports no pointer: the brand hides. -/
 theorem unlicensed_hides (t : Template) (hn : t.reportsNothing = true) (hs : t.typeStatic = false) :
     ∃ i : Inst, i.brandFree = false ∧ t.brandGeneric i = true ∧ t.reportsNothing = true :=
-  ⟨⟨false⟩, rfl, by simp [Template.brandGeneric, Template.applies, hs], hn⟩
+  ⟨{ brandFree := false }, rfl, by simp [Template.brandGeneric, Template.applies, hs], hn⟩
 
 /-! Rows used by the `mutant_witness` theorems: the generic arms as they are in the crate, and as
 the two seeded changes leave them. -/
@@ -59,5 +130,16 @@ def dynCollectArm0 : Template :=
 def dynCollectArm0Mutant : Template := { dynCollectArm0 with needsTrace := .explicitFalse }
 
 end Example
+
+/-- Both seeded templates, instantiated at a type that mentions the brand (`Latch<'gc, T>`,
+`dyn Tr<'gc, T>`), are rows the impl-table rule rejects; the crate's templates give complete rows at
+the same instantiation. -/
+theorem mutant_instances_incomplete :
+    (Example.staticCollectArm0.toEntry { brandFree := false, nparams := 1 }).complete = true ∧
+    (Example.staticCollectArm0Mutant.toEntry { brandFree := false, nparams := 1 }).complete = false ∧
+    (Example.dynCollectArm0.toEntry { brandFree := false, nparams := 1 }).complete = true ∧
+    (Example.dynCollectArm0Mutant.toEntry { brandFree := false, nparams := 1 }).complete = false ∧
+    (Example.dynCollectArm0Mutant.toEntry { brandFree := false, nparams := 0 }).complete = false := by
+  decide
 
 end GcArena.MacroImpls
